@@ -349,6 +349,17 @@ class Case:
             setattr(obj, py, val)
             self.exp.append("ok")
             self.tags[f"set.{k}.ok"] += 1
+            if k == "R" and hasattr(val, "_xobject"):
+                # "assigning it to a reference field shares it": the reference IN MEMORY denotes the assigned object afterwards
+                try:
+                    x = getattr(obj._xobject, n)
+                    okr = x is not None and x._buffer is val._xobject._buffer and int(x._offset) == int(val._xobject._offset)
+                except Exception:
+                    okr = False
+                if not okr:
+                    for key in ("C18:assigned-reference-not-stored", "C08:hybrid-assigned-reference-not-stored"):
+                        self.fail(key, f"{hn}.{py} = {word}: the reference in memory does not denote the assigned object "
+                                  f"(it denotes {getattr(x, '_offset', None) if 'x' in dir() else '?'}, the object is at {int(val._xobject._offset)})")
             if k == "N" and hasattr(val, "_xobject"):
                 # "assigning a hybrid object to a non-reference field stores an independent copy": equal in value
                 try:
@@ -744,8 +755,14 @@ def replay_ops(ops, fails, tags):
     assert c.U.line() == ops[0], (c.U.line(), ops[0])
     U = c.U
     inv = [{v: k for k, v in ren.items()} for _, ren in U.spec]
+    skip_check = False
     for line in ops[4:]:
         w = line.split()
+        if w[0] == "noread":
+            c.ops.append(line)
+            c.exp.append(None)
+            skip_check = True
+            continue
         before = len(c.ops)
         c.last_target = None
         try:
@@ -801,6 +818,9 @@ def replay_ops(ops, fails, tags):
                 c.exp.append(f"num {int(getattr(obj, w[2]))}" if w[2] in obj.__dict__ else "noattr")
         except KeyError:
             break
+        if skip_check:
+            skip_check = False
+            continue
         if len(c.ops) > before and not c.check_mirror(c.ops[-1]):
             break
     return c
@@ -890,6 +910,40 @@ def corpus_history3(r, fails, tags):
     return c
 
 
+def corpus_history4(r, fails, tags):
+    """a reference re-bound through ANOTHER dressed object of the same memory, then bound again - with no read in between - through
+    the first one to what that one still caches: the assignment must reach the memory"""
+    c = Case(r, fails, tags, force={"k1": "R", "k1b": None, "k2": "N", "k3": "R"})
+    steps = [("op_new", dict(ci=0, bi=0)), ("op_new", dict(ci=0, bi=0)),
+             ("op_new", dict(ci=1, bi=0, given={"leaf": "H1"})),
+             ("op_new", dict(ci=2, bi=0, given={"mid": "H3"})),
+             ("op_alias", dict(target=("H4", "mid"))),             # H5 = H4.mid ; H4.mid = H5
+             ("op_get", dict(target=("H4", "mid"))),               # H6: the current dressed object of the same memory
+             ("op_set", dict(target=("H6", "leaf"), source="H1")),
+             ("op_set", dict(target=("H5", "leaf"), source="H2"), "no-read"),   # re-bound through the other dressed object; the Mirror
+                                                                                # oracle (which reads every attribute) is NOT run here
+             ("op_set", dict(target=("H6", "leaf"), source="H1")), # no read in between: H6 still caches H1
+             ("op_get", dict(target=("H5", "leaf"))),
+             ("op_set", dict(target=("H5", "leaf"), source="H2")),
+             ("op_set", dict(target=("H5", "leaf"), source="H2"))]
+    for name, kw, *opt in steps:
+        if opt:
+            c.ops.append("noread")          # recorded for the replay: the oracle does not read between this operation and the next
+            c.exp.append(None)
+        before = len(c.ops)
+        c.last_target = None
+        c.last_field = None
+        try:
+            getattr(c, name)(**kw)
+        except KeyError:
+            break
+        if opt:
+            continue
+        if len(c.ops) > before and not c.check_mirror(c.ops[-1]):
+            break
+    return c
+
+
 def run_history(r, fails, tags, n_ops):
     c = Case(r, fails, tags)
     c.op_new(0)
@@ -912,7 +966,7 @@ def run_all(tier, seed, extra=None):
     n_hist = {"quick": 40, "thorough": 6000}[tier]
     cases, expects, ctxs = [], [], []
     for hi in range(n_hist):
-        c = corpus_history(r, fails, tags) if hi == 0 else corpus_history2(r, fails, tags) if hi == 1 else corpus_history3(r, fails, tags) if hi == 2 else run_history(r, fails, tags, r.choice([8, 14, 24]))
+        c = corpus_history(r, fails, tags) if hi == 0 else corpus_history2(r, fails, tags) if hi == 1 else corpus_history3(r, fails, tags) if hi == 2 else corpus_history4(r, fails, tags) if hi == 3 else run_history(r, fails, tags, r.choice([8, 14, 24]))
         if extra:
             extra(c, r)
         cases.append(c.ops)
